@@ -285,7 +285,7 @@ fn reference(eos: &Arc<Eos>, comps: usize) -> Reference {
     let t = if comps == 1 { 400.0 } else { 450.0 };
     let x0: Vec<f64> = if comps == 1 { vec![1.0] } else { vec![0.375, 0.625] };
     let moles = Array1::from_vec(x0.iter().map(|x| x * 2.5).collect()) * MOL;
-    let s0 = State::new_nvt(eos, t * KELVIN, 2.5 * MOL / (30.0 * MOL / m3), &moles).unwrap();
+    let s0 = State::new_nvt(eos, t * KELVIN, 2.5 * MOL / (80.0 * MOL / m3), &moles).unwrap();
     let c = Contributions::Total;
     Reference {
         t,
@@ -303,12 +303,12 @@ const BAD: [f64; 6] = [f64::NAN, f64::INFINITY, f64::NEG_INFINITY, -0.0, -1.5, 0
 fn make_inputs(pat: u32, r: &Reference, rng: &mut Rng) -> Inputs {
     let bit = |k: u32| pat >> k & 1 == 1;
     // independent (mutually inconsistent) values for the extensive / density inputs: at most one source of each is
-    // used by an accepted pattern, and inconsistent values tell the sources apart.  rho = 30 mol/m3 at the reference;
+    // used by an accepted pattern, and inconsistent values tell the sources apart.  rho = 80 mol/m3 at the reference;
     // the iterative targets (p,h,s,u) belong to the reference state at the reference composition.
-    let vol = rng.range(0.04, 0.16);
-    let rho = rng.range(20.0, 45.0);
+    let vol = rng.range(0.015, 0.06);
+    let rho = rng.range(55.0, 120.0);
     let ntot = rng.range(1.0, 4.0);
-    let rho_pd = rng.range(20.0, 45.0);
+    let rho_pd = rng.range(55.0, 120.0);
     let n_m = rng.range(1.0, 4.0);
     let xs = rng.range(0.5, 3.0);
     let mut i = Inputs::default();
@@ -434,18 +434,20 @@ fn pattern_cases(cli: &feos_verif::cli::Cli, rng: &mut Rng) -> (Vec<Value>, Vec<
 // ---------------------------------------------------------------------------------------------
 // density iteration traces on the mock
 
-fn di_cases(cli: &feos_verif::cli::Cli, rng: &mut Rng) -> (Vec<Value>, String) {
-    let mut out = header();
+fn di_cases(cli: &feos_verif::cli::Cli, rng: &mut Rng) -> (Vec<Value>, Vec<String>) {
+    let nfiles = 16;
+    let mut outs: Vec<String> = (0..nfiles).map(|_| header()).collect();
     let mut cases = Vec::new();
-    let n = if cli.full() { 600 } else { 120 };
+    let n = if cli.full() { 480 } else { 48 };
     let b = 32.0;
     let maxd = 0.9 / b; // 0.028125, exact
     for k in 0..n {
         // critical temperature of the van der Waals part: Tc = 8a/(27b)
         let tc = 400.0;
         let a = 27.0 * b * tc / 8.0;
-        let t = (rng.range(0.6, 1.4) * tc * 16.0).round() / 16.0;
         let step = k % 4 == 3; // every fourth case has the pressure step (non-convergence / capped steps)
+        // step cases are supercritical (no spinodal searches: 50 plain iterations, cheap to evaluate in Coq)
+        let t = ((if step { rng.range(1.05, 1.4) } else { rng.range(0.6, 1.4) }) * tc * 16.0).round() / 16.0;
         let (amp, rs, w) = if step { (rng.range(2.0e-3, 2.0e-2), rng.range(0.1, 0.8) * maxd, 1e-9) } else { (0.0, 1.0, 1.0) };
         let eos = Arc::new(MockEos { ncomp: 1, a, b, amp, vstar: 1.0 / rs, w, maxdensity: maxd });
         // the rational oracle uses rho* = 1/vstar exactly as the f64 1/vstar
@@ -457,10 +459,11 @@ fn di_cases(cli: &feos_verif::cli::Cli, rng: &mut Rng) -> (Vec<Value>, String) {
             1 => p_of(rho_t) * rng.range(0.2, 3.0),
             _ => rng.log_range(1e-4, 1.0) * tc / (8.0 * b),
         };
+        let ptarget = ptarget.min(p_of(0.98 * maxd));
         let ptarget = if step { t * rs_eff / (1.0 - b * rs_eff) - a * rs_eff * rs_eff + rng.range(-0.5, 0.5) * t * amp } else { ptarget };
         let rho0 = match k % 5 {
             0 => maxd,
-            1 => (ptarget / t).abs().max(1e-9),
+            1 => (ptarget / t).abs().max(1e-9).min(maxd),
             2 => rho_t * (1.0 + rng.range(-0.05, 0.05)),
             _ => rng.range(0.001, 1.0) * maxd,
         };
@@ -495,7 +498,7 @@ fn di_cases(cli: &feos_verif::cli::Cli, rng: &mut Rng) -> (Vec<Value>, String) {
             format!("(dyq ({}) ({}))", it.next().unwrap(), it.next().unwrap())
         };
         writeln!(
-            out,
+            outs[(k + k / nfiles) % nfiles],
             "Eval vm_compute in (\"DI\", {k}%Z, run_di {} {} {} {} {} {} {} {}).",
             dq(t), dq(a), dq(b), dq(amp), dq(rs_eff), dq(maxd), dq(p_seen), dq(rho0_seen)
         )
@@ -503,8 +506,13 @@ fn di_cases(cli: &feos_verif::cli::Cli, rng: &mut Rng) -> (Vec<Value>, String) {
         cases.push(json!({"id": k, "T": t, "a": a, "b": b, "amp": amp, "rho_star": rs_eff, "maxdensity": maxd, "p_target": p_seen, "rho0": rho0_seen,
             "result": res, "trace": log.iter().map(|(o, r)| json!([o, r])).collect::<Vec<_>>()}));
     }
-    std::fs::write(format!("{}/di_cases.v", cli.out), &out).unwrap();
-    (cases, "di_cases.v".into())
+    let mut names = Vec::new();
+    for (k, f) in outs.iter().enumerate() {
+        let name = format!("di_cases_{k}.v");
+        std::fs::write(format!("{}/{name}", cli.out), f).unwrap();
+        names.push(name);
+    }
+    (cases, names)
 }
 
 /// the repaired defect, replayed on the real implementation with real models: a NaN / infinite pressure must not
@@ -534,7 +542,7 @@ fn main() {
     let sw = sweep::run(cli.seed, nrec, ntp, 5);
     cli.write_impl(&json!({
         "pattern_cases": cases, "pattern_files": files,
-        "di_cases": dic, "di_file": dif,
+        "di_cases": dic, "di_files": dif,
         "nonfinite_pressure": nonfinite_pressure(),
         "sweep": sw.json,
     }));
